@@ -96,7 +96,8 @@ Proof. intros Hf Hs. unfold range_for. apply for_inv; [|exact Hs]. intros i s0 H
 Section TAB.
 Variable lmax c0 c1 : Z.
 Hypothesis Hl : 0 <= lmax.
-Hypothesis Hc0 : 1 <= c0.
+Hypothesis Hc0 : 0 <= c0.
+Hypothesis Hc0' : 2 <= lmax -> 1 <= c0.
 Hypothesis Hc1 : 0 <= c1.
 Definition Inv (T : tabs) : Prop :=
   Dim (optp0 T) (lmax + 1) (c0 + 1) /\ Dim (opt0 T) (lmax + 1) (c0 + 1) /\ Dim (optp1 T) (lmax + 1) (c1 + 1) /\ Dim (opt1 T) (lmax + 1) (c1 + 1) /\
@@ -254,11 +255,14 @@ Proof.
 Qed.
 End REC.
 
-Theorem hrevolve_total l ram disk wd rd uf ub : 0 <= l -> 1 <= ram -> 0 <= disk -> exists L, hrevolve l ram disk wd rd uf ub = Ok L.
+Theorem hrevolve_total l ram disk wd rd uf ub : 0 <= l -> 0 <= ram -> (1 <= l -> 1 <= ram) -> 0 <= disk -> exists L, hrevolve l ram disk wd rd uf ub = Ok L.
 Proof.
-  intros Hl Hram Hdisk. unfold hrevolve.
-  destruct (hopt_table_total l ram disk Hl Hram Hdisk 0 wd 0 rd ub uf) as (T & -> & HI). cbn [bind].
+  intros Hl Hram0 Hram Hdisk. unfold hrevolve.
+  destruct (hopt_table_total l ram disk Hl Hram0 ltac:(lia) Hdisk 0 wd 0 rd ub uf) as (T & -> & HI). cbn [bind].
   set (p := {| c0v := ram; c1v := disk; w0v := 0; w1v := wd; r0v := 0; r1v := rd; ufv := uf; ubv := ub |}).
-  apply (proj2 (proj2 (proj2 (rec_total p T l Hram HI eq_refl (Z.to_nat (4 * l + 8)))))); cbn [c1v p]; lia.
+  destruct (Z.eq_dec l 0) as [->|Hl0].
+  - (* a single step: the recursion returns at once *)
+    change (Z.to_nat (4 * 0 + 8)) with 8%nat. cbn [recurse Z.eqb]. eauto.
+  - apply (proj2 (proj2 (proj2 (rec_total p T l ltac:(cbn [c0v p]; lia) HI eq_refl (Z.to_nat (4 * l + 8)))))); cbn [c1v p]; lia.
 Qed.
 Print Assumptions hrevolve_total.
